@@ -119,8 +119,21 @@ def _wide_shifts():
     return [{"tree": t, "gaps": None, "env": {}, "org": 0x018123} for t in cases]
 
 
+def _inv_of_names():
+    """`~` applied to a name (its width is the width of the name's value at that time), alone and inside larger expressions"""
+    I = lambda n: ["id", n]
+    L = lambda v, r="x": ["lit", v, r]
+    trees = [["inv", I("k_a")], ["inv", ["par", I("k_a")]], ["bin", ">>", ["par", ["bin", "&", ["inv", I("k_a")], L(0xFFFF)]], L(8, "d")], ["bin", "+", ["inv", I("k_a")], L(1, "d")],
+             ["bin", "&", ["inv", I("k_a")], ["inv", I("k_b")]], ["inv", ["par", ["bin", "+", I("k_a"), I("k_b")]]], ["bin", "-", ["inv", I("k_b")], ["inv", ["inv", I("k_a")]]]]
+    out = []
+    for t in trees:
+        for a, b in ((0x12, 0x1234), (0x1234, 0x12), (0xFF, 0x100), (0x100, 0xFF), (0xFFFF, 0x10000), (0, 0xFFFF), (0x12345, 0)):
+            out.append({"tree": t, "gaps": None, "env": {"k_a": a, "k_b": b}, "org": 0x018123})
+    return out
+
+
 def enum_units(tier, seed):
-    cases = _systematic(tier, seed) + _unary_runs() + _wide_shifts()
+    cases = _systematic(tier, seed) + _unary_runs() + _wide_shifts() + _inv_of_names()
     units = [{"cases": cases[i::32]} for i in range(32)]
     return {"units": units, "exhaustive": tier == "thorough"}
 
@@ -259,6 +272,30 @@ def run_case(case) -> Outcome:
         shadows = ("{\n" + inner + ".db 0x11\n}\n" + f".for {names[0]} := 3, 5 {{\n.db 0x22\n}}\n" +
                    ".macro m_sh(" + ", ".join(names) + ") {\n.db 0x33\n}\nm_sh(" + ", ".join(str(7 + i) for i in range(len(names))) + ")\n")
         asm("after-closed-scopes", shadows + f".dl {text}\n.dl ({text})>>24\n", b"\x11\x22\x22\x33" + _le(value, 3) + _le(value >> 24, 3))
+    if ids and "lb_a" not in ids:
+        # ONE written expression evaluated several times with other values of its names (a macro body applied three times, a loop
+        # body): each evaluation has the conventional value for the values of that time -- nothing (a width, a sub-result) is
+        # carried over from an earlier evaluation of the same text
+        names = sorted(ids)
+        envs = [env]
+        for mul, add in ((0x101, 0x100), (0, 1), (0x10001, 0x12345)):
+            e2 = dict(env)
+            for n in names:
+                e2[n] = (env[n] * mul + add) & 0xFFFFFF
+            envs.append(e2)
+        vals = []
+        for e2 in envs:
+            try:
+                vals.append(X.evaluate(tree, e2))
+            except X.Undefined:
+                vals = None
+                break
+        if vals is not None:
+            calls = "".join("m_rep(" + ", ".join(f"0x{e2[n]:x}" for n in names) + ")\n" for e2 in envs)
+            if directive_ok:
+                asm("repeated", ".macro m_rep(" + ", ".join(names) + f") {{\n.dl {text}\n.dl ({text})>>24\n}}\n" + calls, b"".join(_le(v, 3) + _le(v >> 24, 3) for v in vals))
+            else:
+                asm("repeated", ".macro m_rep(" + ", ".join(names) + f") {{\nlda.w #{text}\n}}\n" + calls, b"".join(b"\xa9" + _le(v, 2) for v in vals))
     if directive_ok and eager_ok and ids and "lb_a" not in ids:
         # a := symbol of the expression is assigned again between two uses of the same text (a running counter): what is
         # evaluated while the program is expanded (macro arguments, := definitions) sees the value at that point
